@@ -306,7 +306,9 @@ func (manager *TableManager) handleMacMobility(path *Path) []*Path {
 	// and L3VNI in the VXLAN case).
 	var paths []*Path
 	for _, ec := range path.GetRouteTargets() {
-		paths = append(paths, manager.GetPathListWithMac(GLOBAL_RIB_NAME, 0, []bgp.Family{bgp.RF_EVPN}, ec, m1)...)
+		// Update holds the read lock already: taking it a second time deadlocks
+		// with a writer (AddVrf, DeleteVrf) that arrives in between
+		paths = append(paths, manager.getPathListWithMac(GLOBAL_RIB_NAME, 0, []bgp.Family{bgp.RF_EVPN}, ec, m1)...)
 	}
 
 	for _, path2 := range paths {
@@ -425,7 +427,11 @@ func (manager *TableManager) GetPathList(id string, as uint32, rfList []bgp.Fami
 func (manager *TableManager) GetPathListWithMac(id string, as uint32, rfList []bgp.Family, rt bgp.ExtendedCommunityInterface, mac net.HardwareAddr) []*Path {
 	manager.mu.RLock()
 	defer manager.mu.RUnlock()
+	return manager.getPathListWithMac(id, as, rfList, rt, mac)
+}
 
+// getPathListWithMac must be called under read lock
+func (manager *TableManager) getPathListWithMac(id string, as uint32, rfList []bgp.Family, rt bgp.ExtendedCommunityInterface, mac net.HardwareAddr) []*Path {
 	paths := make([]*Path, 0, manager.maxPathCounted.Load())
 	for _, t := range manager.getTables(rfList...) {
 		paths = append(paths, t.GetKnownPathListWithMac(id, as, rt, mac, false)...)
